@@ -1,9 +1,12 @@
 package main
 
 import (
+	"encoding/hex"
 	"fmt"
 	"hash/fnv"
 	"math/big"
+	"regexp"
+	"strconv"
 	"strings"
 )
 
@@ -11,14 +14,104 @@ import (
 // the generator options. It is exactly the `gn opt|type|const|block|skip|other` request lines
 // of a case, so that a case can be replayed and shrunk line by line.
 type Def struct {
-	Opts  string // letters: c = -caseInsensitive; "-" = none
-	Types []TypeD
-	Items []Item
+	Opts     string // letters: c = -caseInsensitive, J/Y/T = -json/-yaml/-text=false; "-" = none
+	Parsable []string
+	Types    []TypeD
+	Items    []Item
 }
 
 type TypeD struct {
 	Name string
 	Kind string // i8 i16 i32 i64 int u8 u16 u32 u64 uint
+	Cols []Col
+}
+
+// Col is a trait column: trait name, type token, family token of the Lean model.
+// Type tokens: string (untyped string constant), Str<n> (local `type Str<n> string`), int (untyped
+// int), Sm<n> (local int8), int16, time.Duration (through a renamed import), uint8, uint64,
+// Un<n> (local uint16), bool, rune (untyped rune constant; dynamic type int32).
+type Col struct {
+	Name string
+	Ty   string
+	Fam  string
+}
+
+var localTyRe = regexp.MustCompile(`^(Str|Sm|Un)[0-9]+[a-z]?$`)
+
+func famOfTy(ty string) string {
+	switch {
+	case ty == "string":
+		return "ustr"
+	case strings.HasPrefix(ty, "Str"):
+		return "nstr"
+	case ty == "int", ty == "time.Duration":
+		return "s64"
+	case strings.HasPrefix(ty, "Sm"):
+		return "s8"
+	case ty == "int16":
+		return "s16"
+	case ty == "uint8":
+		return "u8"
+	case ty == "uint64":
+		return "u64"
+	case strings.HasPrefix(ty, "Un"):
+		return "u16"
+	}
+	return "none"
+}
+
+// goTypeOf: how the type token is written in Go source.
+func goTypeOf(ty string) string {
+	switch ty {
+	case "time.Duration":
+		return "stupidTime.Duration"
+	}
+	return ty
+}
+
+// traitExpr renders one trait constant (scalar s:<hex> | i:<int> | b:t|f) of column type ty.
+func traitExpr(ty, sc string) (string, bool) {
+	k, p, ok := strings.Cut(sc, ":")
+	if !ok {
+		return "", false
+	}
+	switch k {
+	case "s":
+		raw, err := hex.DecodeString(p)
+		if err != nil {
+			return "", false
+		}
+		q := strconv.Quote(string(raw))
+		if ty == "string" {
+			return q, true
+		}
+		if strings.HasPrefix(ty, "Str") {
+			return ty + "(" + q + ")", true
+		}
+	case "i":
+		if _, ok := new(big.Int).SetString(p, 10); !ok {
+			return "", false
+		}
+		switch {
+		case ty == "int":
+			return p, true
+		case ty == "rune":
+			n, _ := strconv.Atoi(p)
+			if n >= 0x21 && n <= 0x7e && n != '\'' && n != '\\' {
+				return "'" + string(rune(n)) + "'", true
+			}
+			return "", false
+		case ty == "bool" || ty == "string" || strings.HasPrefix(ty, "Str"):
+			return "", false
+		default:
+			return goTypeOf(ty) + "(" + p + ")", true
+		}
+	case "b":
+		if ty == "bool" && (p == "t" || p == "f") {
+			return map[string]string{"t": "true", "f": "false"}[p], true
+		}
+	}
+	return "", false
 }
 
 type Item struct {
@@ -29,7 +122,10 @@ type Item struct {
 	Dep  bool
 	// Form steers how the line is WRITTEN: x explicit literal, i `T = iota±k`, c `= T(iota±k)`,
 	// r implicit repetition of the previous spec (falls back to i when that would not give Val).
-	Form string
+	// A line with trait constants is always written `Name, … = T(expr), …`; a trailing `n` in the
+	// form gives its trait constants names of their own instead of `_`.
+	Form  string
+	TVals []string
 }
 
 var kinds = []string{"i8", "i16", "i32", "i64", "int", "u8", "u16", "u32", "u64", "uint"}
@@ -84,8 +180,14 @@ func (d *Def) kindOf(t string) string {
 // Lines renders the definition as request lines (without the final `gn gen`).
 func (d *Def) Lines() []string {
 	ls := []string{"gn opt " + d.Opts}
+	if len(d.Parsable) > 0 {
+		ls = append(ls, "gn parsable "+strings.Join(d.Parsable, " "))
+	}
 	for _, t := range d.Types {
 		ls = append(ls, "gn type "+t.Name+" "+t.Kind)
+		for _, c := range t.Cols {
+			ls = append(ls, "gn col "+t.Name+" "+c.Name+" "+c.Ty+" "+c.Fam)
+		}
 	}
 	for _, it := range d.Items {
 		switch it.What {
@@ -94,7 +196,11 @@ func (d *Def) Lines() []string {
 			if it.Dep {
 				dep = "d"
 			}
-			ls = append(ls, fmt.Sprintf("gn const %s %s %s %s %s", it.T, it.Name, it.Val.String(), dep, it.Form))
+			l := fmt.Sprintf("gn const %s %s %s %s %s", it.T, it.Name, it.Val.String(), dep, it.Form)
+			if len(it.TVals) > 0 {
+				l += " " + strings.Join(it.TVals, " ")
+			}
+			ls = append(ls, l)
 		case "block":
 			ls = append(ls, "gn block")
 		case "skip":
@@ -131,17 +237,33 @@ func (d *Def) addLine(ws []string) bool {
 	switch {
 	case ws[1] == "opt" && len(ws) == 3:
 		d.Opts = ws[2]
+	case ws[1] == "parsable":
+		d.Parsable = append([]string{}, ws[2:]...)
+	case ws[1] == "col" && len(ws) == 6:
+		if !isIdent(ws[3]) {
+			return false
+		}
+		found := false
+		for i := range d.Types {
+			if d.Types[i].Name == ws[2] {
+				d.Types[i].Cols = append(d.Types[i].Cols, Col{ws[3], ws[4], ws[5]})
+				found = true
+			}
+		}
+		if !found {
+			return false
+		}
 	case ws[1] == "type" && len(ws) == 4:
 		if _, _, _, ok := kindInfo(ws[3]); !ok || !isIdent(ws[2]) {
 			return false
 		}
-		d.Types = append(d.Types, TypeD{ws[2], ws[3]})
-	case ws[1] == "const" && len(ws) == 7:
+		d.Types = append(d.Types, TypeD{Name: ws[2], Kind: ws[3]})
+	case ws[1] == "const" && len(ws) >= 7:
 		v, ok := new(big.Int).SetString(ws[4], 10)
 		if !ok || !isIdent(ws[2]) || !isIdent(ws[3]) || (ws[5] != "d" && ws[5] != "-") {
 			return false
 		}
-		d.Items = append(d.Items, Item{What: "const", T: ws[2], Name: ws[3], Val: v, Dep: ws[5] == "d", Form: ws[6]})
+		d.Items = append(d.Items, Item{What: "const", T: ws[2], Name: ws[3], Val: v, Dep: ws[5] == "d", Form: ws[6], TVals: append([]string{}, ws[7:]...)})
 	case ws[1] == "block" && len(ws) == 2:
 		d.Items = append(d.Items, Item{What: "block"})
 	case ws[1] == "skip" && len(ws) == 2:
@@ -179,7 +301,47 @@ func (d *Def) declared() []string {
 			r = append(r, it.Name)
 		}
 	}
+	for _, t := range d.Types {
+		for _, c := range t.Cols {
+			r = append(r, c.Name, "_"+c.Name)
+			if localTyRe.MatchString(c.Ty) {
+				r = append(r, "type:"+c.Ty)
+			}
+		}
+	}
 	return r
+}
+
+func (d *Def) typeD(t string) *TypeD {
+	for i := range d.Types {
+		if d.Types[i].Name == t {
+			return &d.Types[i]
+		}
+	}
+	return nil
+}
+
+// firstConst: the constant whose line defines the trait names (lowest value, first name).
+func (d *Def) firstConst(t string) (Item, bool) {
+	cs := d.constsOf(t)
+	if len(cs) == 0 {
+		return Item{}, false
+	}
+	best := cs[0]
+	for _, it := range cs[1:] {
+		if c := it.Val.Cmp(best.Val); c < 0 || (c == 0 && it.Name < best.Name) {
+			best = it
+		}
+	}
+	return best, true
+}
+
+// traitConstName: the name of the constant that DECLARES trait column c (on the first line).
+func traitConstName(c Col) string {
+	if hashOf(c.Name)%3 == 0 {
+		return c.Name // exported trait constant
+	}
+	return "_" + c.Name
 }
 
 func (d *Def) typeNames() []string {
@@ -225,6 +387,32 @@ func (c chain) valueAt(i int) *big.Int {
 func (d *Def) Source(pkg string) string {
 	var b strings.Builder
 	b.WriteString("package " + pkg + "\n\n")
+	needTime := false
+	declared := map[string]bool{}
+	var helper []string
+	for _, t := range d.Types {
+		for _, c := range t.Cols {
+			if c.Ty == "time.Duration" {
+				needTime = true
+			}
+			if localTyRe.MatchString(c.Ty) && !declared[c.Ty] {
+				declared[c.Ty] = true
+				under := "uint16"
+				if strings.HasPrefix(c.Ty, "Str") {
+					under = "string"
+				} else if strings.HasPrefix(c.Ty, "Sm") {
+					under = "int8"
+				}
+				helper = append(helper, fmt.Sprintf("// %s is a trait type.\ntype %s %s\n\n", c.Ty, c.Ty, under))
+			}
+		}
+	}
+	if needTime {
+		b.WriteString("import stupidTime \"time\"\n\n")
+	}
+	for _, h := range helper {
+		b.WriteString(h)
+	}
 	for _, t := range d.Types {
 		_, _, gt, _ := kindInfo(t.Kind)
 		fmt.Fprintf(&b, "// %s is a generated test enum.\ntype %s %s\n\n", t.Name, t.Name, gt)
@@ -271,6 +459,42 @@ func (d *Def) Source(pkg string) string {
 					}
 				} else if hashOf(it.Name)%5 == 0 {
 					fmt.Fprintf(&b, "\t// %s is not deprecated: it is in use.\n", it.Name)
+				}
+				if len(it.TVals) > 0 {
+					// a line with trait constants: Name, <trait names> = T(expr), <trait exprs>
+					td := d.typeD(it.T)
+					first, _ := d.firstConst(it.T)
+					names := []string{it.Name}
+					exprs := []string{}
+					k := new(big.Int).Sub(it.Val, big.NewInt(int64(i)))
+					if strings.HasPrefix(it.Form, "x") {
+						exprs = append(exprs, fmt.Sprintf("%s(%s)", it.T, it.Val.String()))
+					} else {
+						exprs = append(exprs, fmt.Sprintf("%s(%s)", it.T, iotaExpr(k)))
+					}
+					for j, sc := range it.TVals {
+						ty := "int"
+						cname := fmt.Sprintf("Col%d", j)
+						if td != nil && j < len(td.Cols) {
+							ty, cname = td.Cols[j].Ty, traitConstName(td.Cols[j])
+						}
+						switch {
+						case it.Name == first.Name:
+							names = append(names, cname)
+						case strings.HasSuffix(it.Form, "n"):
+							names = append(names, fmt.Sprintf("T%s_%d", it.Name, j))
+						default:
+							names = append(names, "_")
+						}
+						e, ok := traitExpr(ty, sc)
+						if !ok {
+							e = "INVALID_TRAIT_SCALAR"
+						}
+						exprs = append(exprs, e)
+					}
+					fmt.Fprintf(&b, "\t%s = %s\n", strings.Join(names, ", "), strings.Join(exprs, ", "))
+					ch = chain{}
+					continue
 				}
 				form := it.Form
 				if form == "r" {
